@@ -3,6 +3,7 @@ C02 — Delegation follows entitlements, never over-claims, converges and is ide
 Property theorems only; helper lemmas live in `KrillModel/Ca/Lemmas*.lean`.
 -/
 import KrillModel.Ca.Preds
+import KrillModel.Ca.Witnesses
 import KrillModel.Ca.LemmasNoOver
 import KrillModel.Ca.LemmasKeySync
 import KrillModel.Ca.LemmasShrink
@@ -101,14 +102,6 @@ theorem activation_keeps_containment {s : Sys} (h : Reachable s) (na : Int) :
     (s.next (.keyrollActivate na)).ca.noOverclaim = true :=
   never_overclaims (Reachable.step _ h)
 
-/-- Non-vacuity: a shrink that re-issues one child certificate and removes another, in the
-command that receives the smaller certificate. -/
-def shrinkHistory : List Cmd :=
-  [ .repoUpdate [], .addParent 9,
-    .updateEntitlements 9 [⟨0, [1, 2, 3], 100, []⟩] 0 [4],
-    .updateRcvdCert 0 4 { res := [1, 2, 3], na := 100 } 50 [],
-    .childAdd 7 [1, 2], .childAdd 8 [3],
-    .childCertify 7 0 6 none 60, .childCertify 8 0 5 none 60 ]
 
 example :
     (match (Sys.run {} shrinkHistory).exec (.updateRcvdCert 0 4 { res := [1], na := 100 } 70 []) with
@@ -132,16 +125,6 @@ when an unsuspended child's certificate is re-issued; the next shrink then re-is
 entry as *suspended*, and `suspend_certificate` removes the active child's certificate.
 -/
 
-/-- suspend → unsuspend → the parent's certificate shrinks. -/
-def staleHistory : List Cmd :=
-  [ .repoUpdate [], .addParent 9,
-    .updateEntitlements 9 [⟨0, [1, 2, 3], 100, []⟩] 0 [4],
-    .updateRcvdCert 0 4 { res := [1, 2, 3], na := 100 } 50 [],
-    .childAdd 7 [1, 2],
-    .childCertify 7 0 6 none 60,
-    .childSuspend 7,
-    .childUnsuspend 7 10 61,
-    .updateRcvdCert 0 4 { res := [1], na := 100 } 62 [] ]
 
 /-- The negation, with the concrete witness (replayed on the implementation:
 corpus/system/c02-suspend-unsuspend-shrink.ops). -/
@@ -251,18 +234,6 @@ as an orphan and over-claims after the next shrink.  Witness below, replayed on 
 implementation (corpus/system/c02-stale-orphan-published.ops).
 -/
 
-def orphanHistory : List Cmd :=
-  [ .repoUpdate [], .addParent 9,
-    .updateEntitlements 9 [⟨0, [1, 2, 3], 100, []⟩] 0 [4],
-    .updateRcvdCert 0 4 { res := [1, 2, 3], na := 100 } 50 [],
-    .childAdd 7 [1, 2],
-    .childCertify 7 0 6 none 60,
-    .childSuspend 7,
-    .childUnsuspend 7 10 61,
-    .childUpdateResources 7 [1, 2, 3],
-    .childCertify 7 0 6 none 62,
-    .updateRcvdCert 0 4 { res := [3], na := 100 } 63 [],
-    .updateRcvdCert 0 4 { res := [2], na := 100 } 64 [] ]
 
 theorem not_never_overclaims_published :
     ¬ ∀ s : Sys, Reachable s → s.noOverclaimPublished = true := by
